@@ -26,6 +26,7 @@ class Ctx(object):
         self.vars = {}          # name -> (lo, hi)
         self.nfresh = 0
         self.shr_cache = {}
+        self.qsrc = {}          # poly key of a quotient variable -> (base value, shift): q = floor(base / 2^shift)
         self.wraps = []         # unintended wrap-arounds (findings)
         self.notes = []
 
@@ -72,10 +73,12 @@ def pconst(v):
 
 
 class LV(T.Term):
-    __slots__ = ("poly", "lo", "hi", "mod", "src")
+    __slots__ = ("poly", "lo", "hi", "mod", "src", "vbits", "qinfo")
 
-    def __init__(self, poly, lo, hi, w, mod=False, src=None):
+    def __init__(self, poly, lo, hi, w, mod=False, src=None, vbits=None, qinfo=None):
+        self.qinfo = qinfo      # (poly key of B, k, mult): this value is mult * floor(B / 2^k)
         self.src = src          # (exact value x, k): this value is x mod 2^k
+        self.vbits = vbits      # None, or n: only the low n bits of the machine word agree with poly (mod 2^n)
         self.op = "limb"
         self.args = ()
         self.w = w
@@ -121,6 +124,8 @@ def fresh(lo, hi, tag):
 
 def materialise(x, where=""):
     """exact value in [0, 2^w): reduces a possibly wrapped value with a quotient variable"""
+    if x.vbits is not None:
+        raise LimbError("bits above the valid part of a logically shifted negative value are used")
     if not x.mod and 0 <= x.lo and x.hi < (1 << x.w):
         return x
     C.wraps.append(("value used after a possible wrap-around at width %d" % x.w, x.lo, x.hi, where))
@@ -133,10 +138,8 @@ def poly_interval(poly):
         mlo = mhi = 1
         for v in m:
             vlo, vhi = C.vars[v]
-            if vlo < 0:
-                raise LimbError("negative variable range")
-            mlo *= vlo
-            mhi *= vhi
+            cands = (mlo * vlo, mlo * vhi, mhi * vlo, mhi * vhi)
+            mlo, mhi = min(cands), max(cands)
         if c >= 0:
             lo += c * mlo
             hi += c * mhi
@@ -146,10 +149,67 @@ def poly_interval(poly):
     return lo, hi
 
 
+def materialise_any(x):
+    """exact value, signed or unsigned reading (ring operations do not care which)"""
+    if not x.mod and -(1 << (x.w - 1)) <= x.lo and x.hi < (1 << x.w):
+        return x
+    return materialise(x)
+
+
+def materialise_signed(x, where=""):
+    if not x.mod and -(1 << (x.w - 1)) <= x.lo and x.hi < (1 << (x.w - 1)):
+        return x
+    C.wraps.append(("signed value used after a possible overflow at width %d" % x.w, x.lo, x.hi, where))
+    raise LimbError("signed overflow possible: [%d, %d]" % (x.lo, x.hi))
+
+
+def pkey(poly):
+    return tuple(sorted(poly.items()))
+
+
 def split(x, k):
-    """x = 2^k * q + rem, 0 <= rem < 2^k: returns (q LV, rem LV); x must be exact (not mod)"""
-    key = (tuple(sorted(x.poly.items())), k)
+    """x = 2^k * q + rem, 0 <= rem < 2^k, q = floor(x / 2^k) (any sign): returns (q LV, rem LV); x must be exact"""
+    key = (pkey(x.poly), k)
     r = C.shr_cache.get(key)
+    if r is None and k > 0:
+        # x is itself floor(base / 2^j): floor(x / 2^k) = floor(base / 2^(j + k)) -- the quotient variable is shared
+        qs = C.qsrc.get(pkey(x.poly))
+        if qs is not None:
+            base, j = qs
+            q2, _ = split(base, j + k)
+            rem = LV(padd(x.poly, pscale(q2.poly, 1 << k), -1), 0, (1 << k) - 1, x.w)
+            r = (LV(q2.poly, x.lo >> k, x.hi >> k, x.w), rem)
+            C.shr_cache[key] = r
+            return r
+    if r is None and k > 0:
+        # x = q + A with q = floor(B / 2^j) a recorded quotient: x = floor((B + 2^j A) / 2^j), hence
+        # floor(x / 2^k) = floor((B + 2^j A) / 2^(j + k)): nested floors are flattened to one floor of a polynomial in the
+        # original inputs, which is the canonical owner of the quotient variable
+        for m, c in x.poly.items():
+            if c == 1 and len(m) == 1 and ((m, 1),) in C.qsrc:
+                base, j = C.qsrc[((m, 1),)]
+                rest = dict(x.poly)
+                del rest[m]
+                nb = padd(base.poly, pscale(rest, 1 << j))
+                nlo, nhi = poly_interval(nb)
+                q2, _ = split(LV(nb, nlo, nhi, x.w), j + k)
+                rem = LV(padd(x.poly, pscale(q2.poly, 1 << k), -1), 0, (1 << k) - 1, x.w)
+                r = (LV(q2.poly, x.lo >> k, x.hi >> k, x.w), rem)
+                C.shr_cache[key] = r
+                return r
+    if r is None and k > 0:
+        # x = Lw + 2^k * h (h: the monomials whose coefficient is divisible by 2^k): floor(x / 2^k) = floor(Lw / 2^k) + h,
+        # same remainder -- the quotient variable belongs to Lw alone, so x and x - 2^21 * carry (a normalised and an
+        # unnormalised limb) or a word and one of its bytes share it
+        Hh = {m: c for m, c in x.poly.items() if c % (1 << k) == 0}
+        if Hh and len(Hh) < len(x.poly):
+            Lw = {m: c for m, c in x.poly.items() if c % (1 << k)}
+            llo, lhi = poly_interval(Lw)
+            ql, reml = split(LV(Lw, llo, lhi, x.w), k)
+            h = {m: c >> k for m, c in Hh.items()}
+            r = (LV(padd(ql.poly, h), x.lo >> k, x.hi >> k, x.w), LV(reml.poly, 0, (1 << k) - 1, x.w))
+            C.shr_cache[key] = r
+            return r
     if r is None:
         # x = 2^g * y exactly: floor(x / 2^k) = floor(y / 2^(k-g)), rem = 2^g * rem_y  ((2y) >> 51 and y >> 50 share q)
         g = trailing_zeros(x)
@@ -175,15 +235,11 @@ def split(x, k):
                 continue
             y = {m: c >> j for m, c in x.poly.items() if c % (1 << j) == 0}
             ylo, yhi = poly_interval(y)
-            if ylo < 0:
-                continue
             yq, yrem = split(LV(y, ylo, yhi, x.w), k - j) if k > j else (LV(y, ylo, yhi, x.w), LV({}, 0, 0, x.w))
             rem = LV(padd(L, pscale(yrem.poly, 1 << j)), llo + (yrem.lo << j), lhi + (yrem.hi << j), x.w)
             r = (LV(yq.poly, yq.lo, yq.hi, x.w), rem)
             C.shr_cache[key] = r
             return r
-        if x.lo < 0:
-            raise LimbError("shift of a possibly negative value")
         qlo, qhi = x.lo >> k, x.hi >> k
         if qlo == qhi:
             q = LV(pconst(qlo), qlo, qlo, x.w)
@@ -191,6 +247,7 @@ def split(x, k):
         else:
             name = fresh(qlo, qhi, "shr%d" % k)
             q = LV({(name,): 1}, qlo, qhi, x.w)
+            C.qsrc[pkey(q.poly)] = (LV(x.poly, x.lo, x.hi, x.w), k)
             rem = LV(padd(x.poly, {(name,): 1 << k}, -1), 0, (1 << k) - 1, x.w)
         r = (q, rem)
         C.shr_cache[key] = r
@@ -201,6 +258,10 @@ def low_bits(x, k, tag="and"):
     """x mod 2^k (valid also for wrapped values as long as k <= w)"""
     if k > x.w:
         raise LimbError("mask wider than the value")
+    if x.vbits is not None:
+        if k > x.vbits:
+            raise LimbError("bits above the valid part of a logically shifted negative value are used")
+        x = LV(x.poly, x.lo, x.hi, x.w)         # the low k <= vbits bits are those of the polynomial
     if x.src is not None and k <= x.src[1]:
         # (y mod 2^a) mod 2^k == y mod 2^k: reuse y's quotient variable so that carries cancel
         r = low_bits(x.src[0], k, tag)
@@ -208,16 +269,56 @@ def low_bits(x, k, tag="and"):
     if not x.mod and 0 <= x.lo and x.hi < (1 << k):
         return LV(x.poly, x.lo, x.hi, x.w, src=x.src)
     base = LV(x.poly, x.lo, x.hi, x.w)      # mathematical value; mod 2^w then mod 2^k == mod 2^k
-    if base.lo < 0:
-        # shift into the non-negative range by a multiple of 2^k
-        off = ((-base.lo + (1 << k) - 1) >> k) << k
-        base = LV(padd(base.poly, pconst(off)), base.lo + off, base.hi + off, x.w)
     q, rem = split(base, k)
     return LV(rem.poly, rem.lo, rem.hi, x.w, src=(base, k))
 
 
+def tighten(poly, lo, hi):
+    """x - 2^k * floor((x + c) / 2^k) is a remainder shifted by c: when the polynomial is `base - 2^k q + const` for a
+    recorded quotient variable q = floor(base / 2^k), its range is [const, 2^k - 1 + const] whatever the ranges of the
+    parts (interval arithmetic alone loses this correlation and blows up along carry chains)"""
+    for m, c in poly.items():
+        if len(m) == 1 and m[0].startswith("q") and c < 0:
+            qs = C.qsrc.get(((m, 1),))
+            if qs is None:
+                continue
+            base, k = qs
+            if c != -(1 << k):
+                continue
+            delta = padd(padd(poly, base.poly, -1), {m: c}, -1)
+            if not set(delta) - {()}:
+                d = delta.get((), 0)
+                return max(lo, d), min(hi, (1 << k) - 1 + d)
+    return lo, hi
+
+
+def _is_const(x):
+    return not set(x.poly) - {()} and x.lo == x.hi
+
+
 def binop(op, a, b, w):
     a, b = lift(a, w), lift(b, w)
+    r = _binop(op, a, b, w)
+    # bookkeeping: multiples of a recorded quotient
+    if isinstance(r, LV) and r.qinfo is None:
+        if op in ("lshr", "ashr") and _is_const(b) and not a.mod:
+            r.qinfo = (pkey(a.poly), b.lo, 1)
+        elif op == "mul":
+            for x_, y_ in ((a, b), (b, a)):
+                if x_.qinfo is not None and _is_const(y_):
+                    c = y_.lo - (1 << w) if y_.lo >= (1 << (w - 1)) else y_.lo
+                    r.qinfo = (x_.qinfo[0], x_.qinfo[1], x_.qinfo[2] * c)
+        elif op == "shl" and a.qinfo is not None and _is_const(b):
+            r.qinfo = (a.qinfo[0], a.qinfo[1], a.qinfo[2] << b.lo)
+        elif op == "and" and _is_const(b) and not a.mod:
+            m = b.lo
+            t = (m & -m).bit_length() - 1 if m else 0
+            if m and (m >> t) & ((m >> t) + 1) == 0 and t + (m >> t).bit_length() == w and t > 0:
+                r.qinfo = (pkey(a.poly), t, 1 << t)
+    return r
+
+
+def _binop(op, a, b, w):
     if op in ("add", "sub"):
         sb = 1 if op == "add" else -1
         # a constant >= 2^(w-1) added to a value is the two's-complement form of a subtraction
@@ -230,18 +331,35 @@ def binop(op, a, b, w):
         # the machine result is congruent to the polynomial mod 2^w whatever happened before; it IS the polynomial
         # whenever the interval fits the word (an intermediate wrap that cancels -- f + (C - g) -- is harmless); a value
         # that may really have wrapped is reported when it is used (materialise)
-        return LV(padd(a.poly, b.poly, sb), lo, hi, w, mod=(hi >= (1 << w) or lo < 0))
+        poly = padd(a.poly, b.poly, sb)
+        lo, hi = tighten(poly, lo, hi)
+        # x +- mult * floor((x + d) / 2^k) with mult = -+2^k: a remainder shifted by the constant d
+        for x_, q_, sgn in ((a, b, sb), (b, a, 1 if op == "add" else None)):
+            if sgn is None or q_.qinfo is None:
+                continue
+            bkey, k, mult = q_.qinfo
+            if mult * sgn != -(1 << k):
+                continue
+            delta = padd(x_.poly, dict(bkey), -1)
+            if not set(delta) - {()}:
+                d = delta.get((), 0)
+                lo, hi = max(lo, d), min(hi, (1 << k) - 1 + d)
+        r = LV(poly, lo, hi, w, mod=(hi >= (1 << w) or lo < -(1 << (w - 1))))
+        # X - (X mod 2^k) = 2^k * floor(X / 2^k)
+        if op == "sub" and b.src is not None and b.src[0].poly == a.poly:
+            r.qinfo = (pkey(a.poly), b.src[1], 1 << b.src[1])
+        return r
     if op == "mul":
         # a constant >= 2^(w-1) is the two's-complement form of a negative factor (x * -19)
         for x_, y_ in ((a, b), (b, a)):
             if not set(y_.poly) - {()} and y_.lo == y_.hi and y_.lo >= (1 << (w - 1)) and not x_.mod:
                 c = y_.lo - (1 << w)
                 lo, hi = min(c * x_.lo, c * x_.hi), max(c * x_.lo, c * x_.hi)
-                return LV(pscale(x_.poly, c), lo, hi, w, mod=(hi >= (1 << w) or lo < 0))
-        a, b = materialise(a), materialise(b)
+                return LV(pscale(x_.poly, c), lo, hi, w, mod=(hi >= (1 << w) or lo < -(1 << (w - 1))))
+        a, b = materialise_any(a), materialise_any(b)
         cands = [a.lo * b.lo, a.lo * b.hi, a.hi * b.lo, a.hi * b.hi]
         lo, hi = min(cands), max(cands)
-        return LV(pmul(a.poly, b.poly), lo, hi, w, mod=(hi >= (1 << w) or lo < 0))
+        return LV(pmul(a.poly, b.poly), lo, hi, w, mod=(hi >= (1 << w) or lo < -(1 << (w - 1))))
     if op == "shl":
         if isinstance(b, LV) and len(b.poly) <= 1 and b.lo == b.hi:
             k = b.lo
@@ -252,7 +370,19 @@ def binop(op, a, b, w):
         raise LimbError("shift by a symbolic amount")
     if op == "lshr":
         if b.lo == b.hi:
+            k = b.lo
+            if not a.mod and a.vbits is None and a.lo < 0 and a.lo >= -(1 << (w - 1)) and a.hi < (1 << (w - 1)):
+                # logical shift of a possibly negative two's-complement value: the low w - k bits of the result are those
+                # of floor(x / 2^k); the bits above are not (compilers emit this when only low bits are demanded)
+                q, _ = split(a, k)
+                return LV(q.poly, q.lo, q.hi, w, mod=True, vbits=w - k)
             a = materialise(a)
+            q, _ = split(a, k)
+            return q
+        raise LimbError("shift by a symbolic amount")
+    if op == "ashr":
+        if b.lo == b.hi:
+            a = materialise_signed(a)
             q, _ = split(a, b.lo)
             return q
         raise LimbError("shift by a symbolic amount")
@@ -268,8 +398,17 @@ def binop(op, a, b, w):
                 mm = m >> t
                 if mm & (mm + 1) == 0:
                     a_ = t + mm.bit_length()
+                    if a_ == w:
+                        # mask reaching the top bit (x & -2^t): clears the low t bits of the two's-complement value,
+                        # i.e. x - (x mod 2^t) for the intended (possibly negative) integer as well
+                        lo_ = low_bits(x, t, "and")
+                        xe = materialise_any(x)
+                        return LV(padd(xe.poly, lo_.poly, -1), xe.lo - (xe.lo % (1 << t)), xe.hi - (xe.hi % (1 << t)), w)
                     hi_, lo_ = low_bits(x, a_, "and"), low_bits(x, t, "and")
-                    return LV(padd(hi_.poly, lo_.poly, -1), 0, min(m, hi_.hi), w)
+                    r = LV(padd(hi_.poly, lo_.poly, -1), 0, min(m, hi_.hi), w)
+                    if hi_.poly == x.poly and t > 0:
+                        r.qinfo = (pkey(x.poly), t, 1 << t)     # x < 2^a: x & m = 2^t * floor(x / 2^t)
+                    return r
         raise LimbError("and with a non-contiguous or symbolic mask")
     if op == "or":
         # bit-disjoint operands: or == add
@@ -293,6 +432,11 @@ def trailing_zeros(x):
 
 def zext(a, w_from, w_to):
     a = materialise(a)
+    return LV(a.poly, a.lo, a.hi, w_to)
+
+
+def sext(a, w_from, w_to):
+    a = materialise_signed(a)
     return LV(a.poly, a.lo, a.hi, w_to)
 
 
